@@ -284,6 +284,10 @@ func TestVerifC18api(t *testing.T) {
 						}
 						mu := &c18Mutex{}
 						s := &Server{cluster: c18Cluster(kv, mu), super: super}
+						// "against one or several members": a second member's API server works on the same store and the same
+						// cluster mutex; one of the requests may be sent to it
+						s2 := &Server{cluster: c18Cluster(kv, mu), super: super}
+						onSecond := c.Choose(3, "request-sent-to-a-second-member") // 0 = none, 1 / 2 = that request
 						obs := make([]c18Obs, 3)
 						clock := 0
 						sch := vrt.New(c)
@@ -292,7 +296,11 @@ func TestVerifC18api(t *testing.T) {
 							sch.Go(fmt.Sprintf("req%d:%s", a, trio[a].op), func() {
 								clock++
 								obs[a].call = clock
-								obs[a].status, obs[a].version, obs[a].body = c18Do(s, trio[a])
+								srv := s
+								if onSecond == a && a > 0 {
+									srv = s2
+								}
+								obs[a].status, obs[a].version, obs[a].body = c18Do(srv, trio[a])
 								clock++
 								obs[a].ret = clock
 							})
